@@ -631,6 +631,9 @@ func (vc *VC) copyOp(fr *Frame, c *ssa.CallCommon, args []SV) SV {
 		// copied window (memmove semantics: the source is read before the write)
 		vc.assume(fmt.Sprintf("(forall ((%s (_ BitVec 64))) (! (=> (and (bvsle (_ bv0 64) %s) (bvslt %s %s)) (= (select %s (ix %s %s)) (select %s (ix %s %s)))) :pattern ((select %s (ix %s %s))) :pattern ((select %s (ix %s %s)))))",
 			i, i, i, n, R, d.L[1], i, S, s.L[1], i, R, d.L[1], i, S, s.L[1], i))
+		// the same, indexed by absolute position (matches reads written as s[off+j])
+		vc.assume(fmt.Sprintf("(forall ((%s (_ BitVec 64))) (! (=> (and (bvsle %s %s) (bvslt %s (bvadd %s %s))) (= (select %s %s) (select %s (bvadd %s (bvsub %s %s))))) :pattern ((select %s %s))))",
+			i, d.L[1], i, i, d.L[1], n, R, i, S, s.L[1], i, d.L[1], R, i))
 		// everything outside the window keeps its value
 		vc.assume(fmt.Sprintf("(forall ((%s (_ BitVec 64))) (! (=> (not (and (bvsle %s %s) (bvslt %s (bvadd %s %s)))) (= (select %s %s) (select %s %s))) :pattern ((select %s %s))))",
 			i, d.L[1], i, i, d.L[1], n, R, i, D, i, R, i))
